@@ -126,6 +126,7 @@ def _mk_walk(key, wi, two, start='root'):
         orig_ast = {id(f_): f_.a for f_ in ref_order}
         yielded = set()
         skip_below = []        # nodes whose descendants are legitimately not walked (send(False))
+        no_leave = []          # on='both': nodes whose ENTRY was answered with send(False) are documented not to be yielded on leaving
         act_at = []            # (index in ref_order of the node at which an action happened)
         gen = wroot.walk(**wkw)
         for item in gen:
@@ -138,6 +139,8 @@ def _mk_walk(key, wi, two, start='root'):
                 ga = g.a
                 check(any(m_ is ga for m_ in ast.walk(root.a)), 'walk.yielded_node_not_reachable_from_root', (key, wkw, act1, act2, type(ga).__name__))
             expect_again = [e for e in expect_again if e is not g]
+            if both and leaving and any(g is x_ for x_ in no_leave):
+                cover('leave_after_send_false')      # the walk() docstring says such a node is not yielded on leaving; the implementation yields it and search(on='both', nested=False) relies on that: not judged (the property only asks that send(False) stops the recursion)
             if leaving == leave:          # the "first" kind of yield of this walk mode: entry, or leave for on='leave'
                 if id(g) in seen:
                     t0_ = orig.get(id(g), first[id(g)][0])
@@ -171,6 +174,8 @@ def _mk_walk(key, wi, two, start='root'):
                             act_at.append(idx_)
                     if snd == 1:
                         skip_below.append(g)
+                        if both and not leaving:
+                            no_leave.append(g)
                     if snd == 1:
                         gen.send(False)
                     elif snd == 2 and not wkw.get('scope'):
